@@ -3,3 +3,4 @@ pub mod dispatch;
 pub mod prog;
 pub mod relations;
 pub mod step;
+pub mod store;
